@@ -58,4 +58,16 @@ Section Adapt.
     end.
 
   Definition ainit (o : opts) : astate := {| tentative := dt_init o; dvals := [] |}.
+
+  (* a whole history of the controller: per step, which attempts are refused and the max |d|psi|^2| recorded for the
+     accepted attempt.  One entry per step: Some (dt used, next proposal), or None (RuntimeError) which ends it. *)
+  Fixpoint ahist (o : opts) (s : astate) (step : nat) (l : list ((T -> bool) * (T -> T))) : list (option (T * T)) :=
+    match l with
+    | [] => []
+    | (refuse, dof) :: tl =>
+        match astep o s step refuse dof with
+        | None => [None]
+        | Some (dt, s') => Some (dt, tentative s') :: ahist o s' (S step) tl
+        end
+    end.
 End Adapt.
